@@ -42,7 +42,11 @@ def cases(draw, tier):
     if holder:
         # another invocation, started first, that holds some of the same targets at their gates: the measured one
         # finds them locked, queues them and comes back to them after its own jobs -- possibly after a failure
-        hts = sgen._subset(draw, allt, 1, 3)
+        hts = []
+        for t in sgen._subset(draw, allt, 1, 3):
+            # (`redo X Y` with Y in X's closure legitimately runs Y twice: statement-silent shape, DESIGN §5)
+            if all(t not in m.closure(u) and u not in m.closure(t) for u in hts):
+                hts.append(t)
         invs.insert(0, {"argv": ["redo", "-j%d" % draw(st.integers(1, 3))] + hts, "cwd": "",
                         "env": {"REDO_LOG": "0", "REDO_KEEP_GOING": "1"}, "jobserver": None, "kind": "redo",
                         "keep": True, "jobs": 1, "targets": hts})
@@ -156,8 +160,13 @@ def run_case(case, tier):
             if k == "S":
                 per_inv.setdefault((owner_inv.get(extra), t), []).append(pid)
         failed_targets = set(t for (_, t, _) in failed_scripts)
+        # (a target that ANOTHER invocation also ran is left out: that invocation's failure record carries its own,
+        # possibly older, run id and replaces ours -- concurrent invocations are outside this property's quantifier)
+        started_by = {}
+        for (i, t) in per_inv:
+            started_by.setdefault(t, set()).add(i)
         twice = sorted((str(i), t) for (i, t), pids in per_inv.items() if t in failed_targets and len(pids) > 1
-                       and i is not None)
+                       and i is not None and started_by[t] == {i})
         if twice:
             out.violation = {"property": "C05", "clause": "failed-target-executed-twice-in-one-run", "step": 0,
                              "detail": dict(ctx, twice=twice), "sig": {"symptom": "twice", "tier": "parallel"}}
